@@ -317,20 +317,16 @@ def _single_store_locals(fn) -> Dict[str, ast.stmt]:
 
 
 def _pass_store_then_read(fn) -> bool:
-    """N4"""
+    """N4: after ``P = x`` reads of the local ``x`` are reads of ``P`` until either is stored again (same block)."""
     changed = False
-    singles = _single_store_locals(fn)
-    if not singles:
-        return False
     idx = _Index(fn)
+    params = _params(fn)
     for st in list(idx.stmts):
-        if not (isinstance(st, ast.Assign) and len(st.targets) == 1 and isinstance(st.targets[0], ast.Attribute) and isinstance(st.value, ast.Name)):
+        if not (isinstance(st, ast.Assign) and len(st.targets) == 1 and isinstance(st.targets[0], (ast.Attribute, ast.Subscript)) and isinstance(st.value, ast.Name)):
             continue
         x = st.value.id
         P = _path_text(st.targets[0])
-        if x not in singles or P is None or singles[x] is st:
-            continue
-        if idx.order[id(singles[x])] > idx.order[id(st)] or idx.loops_of(st) != idx.loops_of(singles[x]):
+        if P is None or x in ("self", "cls", "None") or x in params:
             continue
         b, i = idx.block_and_index(st)
         if b is None:
@@ -338,11 +334,15 @@ def _pass_store_then_read(fn) -> bool:
         targets = []
         for later in b[i + 1:]:
             nodes = [later] + list(_own_nodes_of_stmt(later))
-            if any(isinstance(n, (ast.stmt, ast.ExceptHandler)) and _conflicts(_stored_paths(n), {P}) for n in nodes):
+            if any(isinstance(n, (ast.stmt, ast.ExceptHandler)) and _conflicts(_stored_paths(n), {P, x}) for n in nodes):
                 break
             targets.extend(m for m in nodes if isinstance(m, ast.Name) and m.id == x and isinstance(m.ctx, ast.Load))
         if targets:
-            _replace(fn, targets, ast.Attribute(value=copy.deepcopy(st.targets[0].value), attr=st.targets[0].attr, ctx=ast.Load()))
+            new = copy.deepcopy(st.targets[0])
+            for n in ast.walk(new):
+                if hasattr(n, "ctx"):
+                    n.ctx = ast.Load()
+            _replace(fn, targets, new)
             changed = True
     return changed
 
@@ -670,7 +670,7 @@ class _Subst(ast.NodeTransformer):
         return node
 
 
-def _bind(callee, call: ast.Call, drop_self: bool, caller_names: Set[str], pre_bound: Optional[List[ast.AST]] = None):
+def _bind(callee, call: ast.Call, drop_self: bool, caller_names: Set[str], pre_bound: Optional[List[ast.AST]] = None, keep: Optional[Set[str]] = None):
     """-> (prefix statements, substituted body) or None"""
     params = [a.arg for a in callee.args.args]
     if drop_self:
@@ -724,7 +724,7 @@ def _bind(callee, call: ast.Call, drop_self: bool, caller_names: Set[str], pre_b
     for nm in stored:
         if nm in params:
             continue
-        if nm in caller_names:
+        if nm in caller_names and nm not in (keep or ()):
             rename[nm] = _fresh(nm)
     tr = _Subst(subst, rename)
     body = [tr.visit(st) for st in body]
@@ -823,10 +823,17 @@ def _pass_inline_helpers(fn, ctx: "_Ctx") -> bool:
             callee, drop_self = ctx.resolve(call.func, fn)
             if callee is not None and (isinstance(callee, ast.AsyncFunctionDef) == isinstance(getattr(st, "value", None), ast.Await)):
                 names = names or _caller_names(fn)
-                bound = _bind(callee, call, drop_self, names)
+                keep = set()
+                if mode == "A":
+                    tg0 = st.targets[0] if isinstance(st, ast.Assign) else st.target
+                    if isinstance(tg0, ast.Name) and not any(isinstance(x, ast.Name) and x.id == tg0.id for a_ in list(call.args) + [k.value for k in call.keywords] for x in ast.walk(a_)):
+                        keep = {tg0.id}
+                bound = _bind(callee, call, drop_self, names, keep=keep)
                 if bound is not None:
                     prefix, body = bound
                     body = _structure_early_returns(body)
+                    if mode == "A" and not _tail_returns_only(body) and _loop_return_inline(b, i, st, prefix, body):
+                        return True
                     if _tail_returns_only(body):
                         rets = _returns(body)
                         if mode == "S" and all(r.value is None or q.is_const(r.value, None) for r in rets):
@@ -960,3 +967,111 @@ def _swap_node(root_stmt, old, new):
     T().generic_visit(root_stmt)
     for x in ast.walk(new):
         ast.copy_location(x, old)
+
+
+def _has_loop_jump(stmts) -> bool:
+    """break/continue that would bind to an enclosing loop (not inside a loop of their own)."""
+    for st in stmts:
+        if isinstance(st, (ast.Break, ast.Continue)):
+            return True
+        if isinstance(st, LOOPS + FuncNode + (ast.ClassDef,)):
+            continue
+        for fld in ("body", "orelse", "finalbody"):
+            sub = getattr(st, fld, None)
+            if isinstance(sub, list) and sub and isinstance(sub[0], ast.stmt) and _has_loop_jump(sub):
+                return True
+        for h in getattr(st, "handlers", []) or []:
+            if _has_loop_jump(h.body):
+                return True
+    return False
+
+
+def _loop_tail_returns(block, rets_ok):
+    """Collect the returns that are the last statement executed of one loop iteration."""
+    if not block:
+        return
+    last = block[-1]
+    if isinstance(last, ast.Return):
+        rets_ok.add(id(last))
+    elif isinstance(last, ast.If):
+        _loop_tail_returns(last.body, rets_ok)
+        _loop_tail_returns(last.orelse, rets_ok)
+
+
+def _loop_return_inline(b, i, st, prefix, body) -> bool:
+    """F4:   T = h()            h:  PRE; while C: BODY (with `return v` ending an iteration); [return None]
+             if <test on T>: A [else: B]
+       ->    PRE
+             while C:  BODY[`return v` -> T = v; if <test on T>: A else: B; break]
+             else:     T = None; if <test on T>: A else: B
+    (exactly the same executions: a `return v` leaves the helper with T = v, falling out of the loop leaves it with None)."""
+    tg = st.targets[0] if isinstance(st, ast.Assign) else st.target
+    if not isinstance(tg, ast.Name) or i + 1 >= len(b) or not isinstance(b[i + 1], ast.If):
+        return False
+    nxt = b[i + 1]
+    if not any(isinstance(x, ast.Name) and x.id == tg.id for x in ast.walk(nxt.test)):
+        return False
+    if _has_loop_jump(nxt.body) or _has_loop_jump(nxt.orelse):
+        return False
+    stmts = list(body)
+    if stmts and isinstance(stmts[-1], ast.Return) and (stmts[-1].value is None or q.is_const(stmts[-1].value, None)):
+        stmts = stmts[:-1]
+    if not stmts or not isinstance(stmts[-1], ast.While) or stmts[-1].orelse:
+        return False
+    loop = stmts[-1]
+    pre = stmts[:-1]
+    if _returns(pre):
+        return False
+    ok_ids = set()
+    _loop_tail_returns(loop.body, ok_ids)
+    rets = _returns(loop.body)
+    if not rets or not all(id(r) in ok_ids for r in rets):
+        return False
+    # no inner loops containing returns (break would leave the wrong loop)
+    for n in _own_nodes_of_stmt(loop):
+        if isinstance(n, LOOPS) and _returns([n]):
+            return False
+
+    def cont(v):
+        out = []
+        if not (isinstance(v, ast.Name) and v.id == tg.id):
+            out.append(ast.Assign(targets=[ast.Name(id=tg.id, ctx=ast.Store())], value=v if v is not None else ast.Constant(value=None)))
+        out.append(copy.deepcopy(nxt))
+        out.append(ast.Break())
+        return out
+
+    def rewrite(block):
+        last = block[-1]
+        if isinstance(last, ast.Return):
+            block[-1:] = cont(last.value)
+        elif isinstance(last, ast.If):
+            rewrite(last.body)
+            if last.orelse:
+                rewrite(last.orelse)
+
+    def walk(block):
+        if block and (isinstance(block[-1], ast.Return) or (isinstance(block[-1], ast.If) and _returns([block[-1]]))):
+            rewrite(block)
+
+    walk(loop.body)
+    # falling out of the loop: T is None, so a simple test on T is decided here
+    dec = _decide_with_none(nxt.test, tg.id)
+    tail = copy.deepcopy(nxt.body if dec else nxt.orelse) if dec is not None else [copy.deepcopy(nxt)]
+    loop.orelse = [ast.Assign(targets=[ast.Name(id=tg.id, ctx=ast.Store())], value=ast.Constant(value=None))] + tail
+    b[i:i + 2] = _loc(prefix + pre + [loop], st)
+    return True
+
+
+def _decide_with_none(test, name) -> Optional[bool]:
+    """Truth of ``test`` when the local ``name`` is None, for the simple shapes `x is None`, `x is not None`, `x`, `not x`."""
+    if isinstance(test, ast.UnaryOp) and isinstance(test.op, ast.Not):
+        r = _decide_with_none(test.operand, name)
+        return None if r is None else not r
+    if isinstance(test, ast.Name) and test.id == name:
+        return False
+    if isinstance(test, ast.Compare) and len(test.ops) == 1 and isinstance(test.left, ast.Name) and test.left.id == name and isinstance(test.comparators[0], ast.Constant) and test.comparators[0].value is None:
+        if isinstance(test.ops[0], ast.Is):
+            return True
+        if isinstance(test.ops[0], ast.IsNot):
+            return False
+    return None
